@@ -84,11 +84,28 @@ def _last(series):
     return v[0] if hasattr(v, '__len__') else v
 
 
-def power_law(ctx, n, b, arr=False, cut_off=0.0, split=None):
+def power_law(ctx, n, b, arr=False, cut_off=0.0, split=None, default_cut=False):
     im = ctx.lib.im
     x = ctx.arr('x', n, -10.0, 10.0)
     a_ref = ctx.real('a_ref', 0.1, 10.0)
     ctx.assume(S.sym_or(*[x[j] != x[0] for j in range(1, n)]))
+    if default_cut:
+        # the documented default (cut_off = 0.01 of the record's own maximum) on a record none of whose samples is that
+        # small: nothing may be cut, whatever the reference amplitude, so the inverse relation holds as for cut_off = 0
+        mx = S.sym_extreme_n([S.sym_abs(v) for v in x], True)
+        ctx.assume(S.sym_and(*[S.sym_abs(x[j]) * 50 >= mx for j in range(n)]))
+        bb = _b(ctx, b, arr)
+        nc = im.calc_n_cyc_array_w_power_law(x, a_ref, bb)
+        flat = [v[0] if hasattr(v, '__len__') else v for v in nc]
+        ctx.observe('n_cyc', flat)
+        ctx.claim('cycles_length', len(nc) == n, len(nc))
+        ctx.claim('cycles_non_decreasing', S.sym_and(*[flat[i] - flat[i - 1] >= 0 for i in range(1, n)]))
+        N = flat[-1]
+        ctx.assume(N > 0)
+        amp = im.calc_cyc_amp_array_w_power_law(x, N, bb)
+        fa = [v[0] if hasattr(v, '__len__') else v for v in amp]
+        ctx.claim('amplitude_at_cycles_of_a_ref_is_a_ref', ctx.eq(fa[-1], a_ref, 10.0, rtol=1e-7))
+        return
     if cut_off == 0.0:
         # a zero-valued peak divides by zero (inf intermediate, absorbed by 0.5/inf = 0 in floats): outside the
         # real-arithmetic model, so samples are taken non-zero when no cut-off protects the division
@@ -194,6 +211,9 @@ def obligations(tier, seed):
                 yield Ob('scaling', dict({'n': n, 'b': b}, **sp), query_ms=60000, timeout_s=1500)
         yield Ob('power_law', {'n': 3, 'b': b, 'cut_off': 0.01}, query_ms=60000, timeout_s=1500)
     yield Ob('power_law', {'n': 3, 'b': 1.0, 'arr': True}, query_ms=60000, timeout_s=1500)
+    for n in ((2, 3) if q else (2, 3, 4)):
+        for b in (1.0, 0.5):
+            yield Ob('power_law', {'n': n, 'b': b, 'default_cut': True}, query_ms=60000, timeout_s=1500)
     for b in (1.0, 0.5, 2.0):
         for n in ((2, 3, 4) if q else (2, 3, 4, 5)):
             yield Ob('int_dtype', {'n': n, 'b': b}, query_ms=60000, timeout_s=900)
